@@ -53,6 +53,34 @@ static void pg_name (VProg * p, const char *lvl, long idx)
   snprintf (p->name, sizeof (p->name), "v%s_%ld", lvl, idx);
 }
 
+/* LW: a scalar operand declared narrower than the operation that uses it (a 1-, 2- or 4-byte parameter given to a
+ * 2-, 4- or 8-byte opcode; the compiler accepts it), followed by a second narrow parameter that a second instruction
+ * uses, so that the neighbouring parameter slot holds a value */
+static long pgen_LW (PgenCb cb, void *user)
+{
+  int oi, w;
+  long cnt = 0;
+  for (oi = 0; oi < v_nops; oi++) {
+    const OrcStaticOpcode *o = &v_ops[oi];
+    if (op_is_float (o) || op_nsrc (o) != 2 || o->dest_size[1] || (o->flags & (ORC_STATIC_OPCODE_SCALAR | ORC_STATIC_OPCODE_ACCUMULATOR))) continue;
+    if (o->src_size[0] != o->src_size[1] || op_is_loadoff (o) || op_is_ldres (o)) continue;
+    for (w = 1; w < o->src_size[1]; w *= 2) {
+      VProg p;
+      int d1, s1, p1, d2, s2, p2;
+      memset (&p, 0, sizeof (p));
+      d1 = vprog_addvar (&p, VK_D, o->dest_size[0]); s1 = vprog_addvar (&p, VK_S, o->src_size[0]);
+      d2 = vprog_addvar (&p, VK_D, o->dest_size[0]); s2 = vprog_addvar (&p, VK_S, o->src_size[0]);
+      p1 = vprog_addvar (&p, VK_P, w); p.v[p1].ptype = ORC_PARAM_TYPE_INT;
+      p2 = vprog_addvar (&p, VK_P, w); p.v[p2].ptype = ORC_PARAM_TYPE_INT;
+      vprog_addinsn (&p, o->name, 0, 3, d1, s1, p1, -1);
+      vprog_addinsn (&p, o->name, 0, 3, d2, s2, p2, -1);
+      pg_name (&p, "LW", cnt++);
+      cb (&p, user);
+    }
+  }
+  return cnt;
+}
+
 /* L1: every single-opcode program. */
 static long pgen_L1 (PgenCb cb, void *user, int classes)
 {
